@@ -12,6 +12,7 @@ Two parts (DESIGN 3, C15):
 """
 
 import itertools
+import math
 
 from vlib import e1
 from vlib.senv import ScriptEnv
@@ -128,15 +129,16 @@ def f_alphabets(tier):
 
 def f_configs(tier):
     if tier == "quick":
-        wins, thrs, ws = [1, 2, 3], [0, 1, 3, 5, NEVER], [0.5, 0.9, 1.0, 1.5]
+        wins, thrs, ws = [1, 2, 3], [0, 1, 2.5, 3, 5, NEVER], [0.5, 0.9, 1.0, 1.5]  # 2.5: a threshold computed as a fraction of the budget
     else:
-        wins, thrs, ws = [1, 2, 3, 4], [0, 1, 2, 3, 5, 8, NEVER], [0.0, 0.5, 0.9, 1.0, 1.5]  # > 1 is documented for negative returns
+        wins, thrs, ws = [1, 2, 3, 4], [0, 1, 2, 2.5, 3, 5, 8, NEVER], [0.0, 0.5, 0.9, 1.0, 1.5]  # > 1 is documented for negative returns
     out = []
     for win, thr in itertools.product(wins, thrs):
         starts = [0]
         if thr not in (0, NEVER):
             # resumed runs: train_td7 starts with epoch = global_step - learning_starts > 0
-            starts += sorted({thr - 1, thr, thr + 2} - {0}) if tier != "quick" else ([thr - 1] if thr > 1 else [])
+            below = math.ceil(thr) - 1  # the largest whole iteration count still below the threshold
+            starts += sorted({below, math.ceil(thr), math.ceil(thr) + 2} - {0}) if tier != "quick" else ([below] if thr > 1 else [])
         # initial window (CheckpointState.max_episodes_before_update is a public field; train_td7 uses 1)
         iws = [1] if thr in (0, NEVER) else ([1, 3] if tier == "quick" else [1, 2, 3])
         out.append((win, thr, ws, starts, iws))
